@@ -14,6 +14,12 @@
                                                      visited), Visit k (callback for key k: reads the value
                                                      stored NOW), Pass2 (end: own view, comparison, decision)
    <-tpv.responses in the acknowledgement loop       TakeResponse
+   tpv.queriesReceived / tpv.queries                 queried / qchan (the model's channel also remembers who sent
+                                                     each queued list, and qacc whose matching queries were taken:
+                                                     ghost information that no step looks at)
+   <-tpv.queries in the acknowledgement loop         TakeQuery
+   the orchestrator stops serving the topic          Stop (only after Synchronize returned): later HandleMessage calls
+   (threshold.Sign unregisters the synchroniser)     for the topic never reach the member
    <-ctx.Done() in either loop                       CtxDone
    f(members)                                        output Continue members
    return fmt.Errorf(...)                            output Return_err
@@ -37,7 +43,13 @@
                 same Range visited.
    fix_solo     upstream returned the last announced list (nil when nobody announced), so a member that expects
                 only itself never completes, and one that expects 0 members continues with an empty list.
-                Repaired: the own view is returned. *)
+                Repaired: the own view is returned.
+   fix_queries  upstream completed as soon as expected-1 peers had acknowledged its query.  The orchestrator then stops
+                serving the topic, and the single, never repeated query of a member that finished its first loop a
+                little later was dropped: that member ran into its deadline although every message was delivered
+                (C07_teardown_tree_refuted).  Repaired: a member also waits for the (first) query of expected-1 peers
+                carrying the identical list; a peer that has queried has finished its first loop and has been
+                answered. *)
 Require Import TSS.Base.Base TSS.Disc.Sort.
 
 Inductive mty := MMember | MQuery | MResp.
@@ -60,14 +72,14 @@ Proof.
 Qed.
 
 Record cfg := mkCfg { self : N; topic : N; membership : list N; expected : nat;
-                      fix_onepass : bool; fix_solo : bool }.
+                      fix_onepass : bool; fix_solo : bool; fix_queries : bool }.
 
 (* (type, (topic, id) the tag stands for, announced list) *)
 Definition msg := (mty * (N * N) * view)%type.
 
 Inductive phase :=
 | Collect                                   (* first loop of Synchronize *)
-| Query (members : view) (acks_left : nat)  (* acknowledgement loop, acks_left > 0 *)
+| Query (members : view) (acks_left queries_left : nat)   (* second loop; not both 0 *)
 | Done (members : view)                     (* f(members) was called, nil returned *)
 | Failed.                                   (* an error was returned *)
 
@@ -75,10 +87,14 @@ Record state := mkSt {
   views : list (N * view);
   responded : list N;
   chan : list view;
+  queried : list N;
+  qchan : list (N * view);
+  qacc : list N;
+  stopped : bool;
   pass : option (list N * list (N * view));   (* Range in progress: keys to visit, (key, value) pairs visited *)
   ph : phase }.
 
-Definition state0 := mkSt [] [] [] None Collect.
+Definition state0 := mkSt [] [] [] [] [] [] false None Collect.
 
 Inductive event :=
 | Handle (from : N) (m : msg)
@@ -87,13 +103,18 @@ Inductive event :=
 | Visit (k : N)
 | Pass2
 | TakeResponse
-| CtxDone.
+| TakeQuery
+| CtxDone
+| Stop.
+
+(* the four error returns of Synchronize *)
+Inductive errc := ECollect | ETooMany | EAcks | EQueries.
 
 Inductive output :=
 | Bcast (ty : mty) (v : view)
 | SendTo (to : N) (ty : mty) (v : view)
 | Continue (members : view)
-| Return_err.
+| Return_err (e : errc).
 
 Definition keys (l : list (N * view)) : list N := map fst l.
 
@@ -122,16 +143,21 @@ Definition intersected (c : cfg) (s : list (N * view)) (ks_now : list N) : view 
   let mv := my_view_of c (if fix_onepass c then keys s else ks_now) in
   if all_eq mv s then (if fix_solo c then mv else last_view s) else [].
 
-Definition set_ph (st : state) (p : phase) : state := mkSt (views st) (responded st) (chan st) None p.
+Definition set_ph (st : state) (p : phase) : state :=
+  mkSt (views st) (responded st) (chan st) (queried st) (qchan st) (qacc st) (stopped st) None p.
+Definition set_views (st : state) (vs : list (N * view)) : state :=
+  mkSt vs (responded st) (chan st) (queried st) (qchan st) (qacc st) (stopped st) (pass st) (ph st).
+Definition set_pass (st : state) (p : option (list N * list (N * view))) : state :=
+  mkSt (views st) (responded st) (chan st) (queried st) (qchan st) (qacc st) (stopped st) p (ph st).
 
 (* what Synchronize does with the result of intersectedView *)
 Definition decide (c : cfg) (st : state) (members : view) : state * list output :=
   if Nat.leb (expected c) (length members) then
-    if Nat.ltb (expected c) (length members) then (set_ph st Failed, [Return_err])
+    if Nat.ltb (expected c) (length members) then (set_ph st Failed, [Return_err ETooMany])
     else let L := isort members in
          match (expected c - 1)%nat with
          | O => (set_ph st (Done L), [Bcast MQuery L; Continue L])
-         | S k => (set_ph st (Query L (S k)), [Bcast MQuery L])
+         | S k => (set_ph st (Query L (S k) (if fix_queries c then S k else O)), [Bcast MQuery L])
          end
   else (set_ph st Collect, []).
 
@@ -139,19 +165,32 @@ Definition accepts (c : cfg) (from : N) (m : msg) : bool :=
   let '(_, (tp, id), _) := m in
   (tp =? topic c) && (id =? from) && negb (id =? self c) && memb id (membership c).
 
+(* the loop condition `acknowledgementsLeft > 0 || queriesLeft > 0` after a decrement *)
+Definition progress (st : state) (L : view) (a q : nat) : state * list output :=
+  match a, q with
+  | O, O => (set_ph st (Done L), [Continue L])
+  | _, _ => (set_ph st (Query L a q), [])
+  end.
+
 Definition step (c : cfg) (st : state) (ev : event) : state * list output :=
   match ev with
   | Handle from m =>
-      if accepts c from m then
+      if stopped st then (st, [])
+      else if accepts c from m then
         let '(ty, _, peers) := m in
         match ty with
-        | MMember => (mkSt (set_view from peers (views st)) (responded st) (chan st) (pass st) (ph st), [])
+        | MMember => (set_views st (set_view from peers (views st)), [])
         | MQuery =>
-            let st' := mkSt (set_view from peers (views st)) (responded st) (chan st) (pass st) (ph st) in
-            (st', [SendTo from MResp (my_view c st')])
+            let st' := set_views st (set_view from peers (views st)) in
+            let o := [SendTo from MResp (my_view c st')] in
+            if fix_queries c && negb (memb from (queried st))
+            then (mkSt (views st') (responded st) (chan st) (from :: queried st) (qchan st ++ [(from, peers)])
+                       (qacc st) (stopped st) (pass st) (ph st), o)
+            else (st', o)
         | MResp =>
             if memb from (responded st) then (st, [])
-            else (mkSt (views st) (from :: responded st) (chan st ++ [peers]) (pass st) (ph st), [])
+            else (mkSt (views st) (from :: responded st) (chan st ++ [peers]) (queried st) (qchan st) (qacc st)
+                       (stopped st) (pass st) (ph st), [])
         end
       else (st, [])
   | Tick =>
@@ -161,7 +200,7 @@ Definition step (c : cfg) (st : state) (ev : event) : state * list output :=
       end
   | Pass1 =>
       match ph st with
-      | Collect => (mkSt (views st) (responded st) (chan st) (Some (keys (views st), [])) Collect, [])
+      | Collect => (set_pass st (Some (keys (views st), [])), [])
       | _ => (st, [])
       end
   | Visit k =>
@@ -169,7 +208,7 @@ Definition step (c : cfg) (st : state) (ev : event) : state * list output :=
       | Collect, Some (pend, s) =>
           match lookup k (views st) with
           | Some v => if memb k (keys s) then (st, [])
-                      else (mkSt (views st) (responded st) (chan st) (Some (pend, s ++ [(k, v)])) Collect, [])
+                      else (set_pass st (Some (pend, s ++ [(k, v)])), [])
           | None => (st, [])
           end
       | _, _ => (st, [])
@@ -184,19 +223,30 @@ Definition step (c : cfg) (st : state) (ev : event) : state * list output :=
       end
   | TakeResponse =>
       match ph st, chan st with
-      | Query L (S k), r :: rest =>
-          let st' := mkSt (views st) (responded st) rest (pass st) (ph st) in
-          if view_eqb r L then
-            match k with
-            | O => (mkSt (views st) (responded st) rest None (Done L), [Continue L])
-            | S _ => (mkSt (views st) (responded st) rest None (Query L k), [])
-            end
-          else (st', [])
+      | Query L a q, r :: rest =>
+          let st' := mkSt (views st) (responded st) rest (queried st) (qchan st) (qacc st) (stopped st) (pass st) (ph st) in
+          if view_eqb r L then progress st' L (pred a) q else (st', [])
+      | _, _ => (st, [])
+      end
+  | TakeQuery =>
+      match ph st, qchan st with
+      | Query L a q, (p, l) :: rest =>
+          if view_eqb l L
+          then progress (mkSt (views st) (responded st) (chan st) (queried st) rest (p :: qacc st) (stopped st) (pass st) (ph st))
+                        L a (pred q)
+          else (mkSt (views st) (responded st) (chan st) (queried st) rest (qacc st) (stopped st) (pass st) (ph st), [])
       | _, _ => (st, [])
       end
   | CtxDone =>
       match ph st with
-      | Collect | Query _ _ => (set_ph st Failed, [Return_err])
+      | Collect => (set_ph st Failed, [Return_err ECollect])
+      | Query _ a _ => (set_ph st Failed, [Return_err (match a with O => EQueries | _ => EAcks end)])
+      | _ => (st, [])
+      end
+  | Stop =>
+      match ph st with
+      | Done _ | Failed =>
+          (mkSt (views st) (responded st) (chan st) (queried st) (qchan st) (qacc st) true (pass st) (ph st), [])
       | _ => (st, [])
       end
   end.
